@@ -258,3 +258,42 @@ func TestKeyGenDeterministic(t *testing.T) {
 		t.Errorf("AllKeySpecs has %d entries", n)
 	}
 }
+
+func TestBERReader(t *testing.T) {
+	in := TLVIndef(0x30, IntN(5), TLVIndef(0x31, Null(), TLVIndef(0x24, OctetString([]byte("ab")), OctetString([]byte("cd")))))
+	n, trailing, err := parseAll(append(in, 0xff))
+	if err != nil || trailing != 1 || !n.indef {
+		t.Fatalf("parse: %v %d", err, trailing)
+	}
+	want := Seq(IntN(5), Set(Null(), TLV(0x24, OctetString([]byte("ab")), OctetString([]byte("cd")))))
+	if got := n.toDER(0); !bytes.Equal(got, want) {
+		t.Errorf("toDER = %x want %x", got, want)
+	}
+	ks, _ := n.kids(0)
+	ks2, _ := ks[1].kids(0)
+	if b, ok := ks2[1].octets(0); !ok || string(b) != "abcd" {
+		t.Errorf("constructed OCTET STRING = %q", b)
+	}
+	// non-minimal length octets are accepted and normalised
+	nm := []byte{0x30, 0x82, 0x00, 0x04, 0x02, 0x81, 0x01, 0x05}
+	n, _, err = parseAll(nm)
+	if err != nil {
+		t.Fatal(err)
+	}
+	if got := n.toDER(0); !bytes.Equal(got, Seq(IntN(5))) {
+		t.Errorf("toDER(non-minimal) = %x", got)
+	}
+	// garbage
+	for _, g := range [][]byte{nil, {0x30}, {0x30, 0x80}, {0x30, 0x80, 0x00}, {0x04, 0x80, 0, 0}, {0x30, 0x89, 1, 1, 1, 1, 1, 1, 1, 1, 1}, {0x1f, 0xff, 0xff, 0xff, 0xff, 0xff}, {0x30, 0x84, 0xff, 0xff, 0xff, 0xff}} {
+		if _, _, err := parseAll(g); err == nil {
+			t.Errorf("%x accepted", g)
+		}
+	}
+	// UTCTime pivot (RFC 5280): 49 -> 2049, 50 -> 1950
+	for s, y := range map[string]int{"490101000000Z": 2049, "500101000000Z": 1950, "990101000000Z": 1999, "000101000000Z": 2000} {
+		n, _, _ := parseAll(TLV(tagUTCTime, []byte(s)))
+		if tm, ok := n.timeValue(); !ok || tm.Year() != y {
+			t.Errorf("UTCTime %s -> %v", s, tm)
+		}
+	}
+}
